@@ -159,3 +159,9 @@ func init() {
 		Rule: "one case = one hostile request against a real GripServer on an empty or small populated graph: Traversal/Submit with a typed program into which hostile steps are spliced (condition values of every JSON kind for every operator incl. missing values and unknown operators, references to undefined marks, empty/duplicate/unnamed/zero-interval/NaN aggregations, negative and inverted ranges, *Null steps followed by anything, jumps to missing marks, empty statements, nil expressions), ResumeJob with hostile extensions, AddVertex/AddEdge with nil or empty elements, BulkAdd streams alternating existing/missing/schema graphs with nil elements, and 19 other handlers on existing/missing/empty/schema graph names; each under a seeded schedule. A panic reaching the top of any goroutine, or a dead worker process, is the violation. distinct = distinct requests",
 		Assumptions: []string{"grpc-go does not recover handler panics and the repository has no recover(): a panic on any goroutine terminates the server", "requests that merely never finish are not judged here (C07/C12)"}}
 }
+
+func init() {
+	props["C17"] = &propCfg{Level: "exploration", QuickRuns: 5000, QuickS: 60, ThoroughRuns: 500000, ThoroughS: 1500, Race: true, RaceShare: 2, CrashIsViolation: true,
+		Rule: "one case = 2..4 client sessions of 2..6 calls (vertex/edge add and delete on overlapping ids, graph create/delete, one-element bulk streams, traversals, lookups, label and graph listings, schema upload/read, job submit/poll/view/list) against one real GripServer, interleaved by the seeded scheduler at every yield point incl. inside the simulated disk; half of the workers run the race-detector build. Judged: no process death, race reports in repository code (deduplicated by the pair of racing functions), final state explained by some order of the acknowledged edits consistent with each client's order (exact bounded search), every read value was written by some client. non-trivial = at least 2 clients and 2 edits; distinct = distinct (sessions, decision-sequence hash)",
+		Assumptions: []string{"the final-state oracle is deliberately weaker than linearizability: the property constrains the final state and per-client order only", "edge ids keep their endpoints and label (the recorded edge re-add finding is excluded), label listings are not compared", "simkv Update transactions are serialisable and top-level writes atomic, as the real engines'"}}
+}
